@@ -1210,6 +1210,15 @@ fn conc_oracle(c: &Conc, results: &[CommitOut]) -> (Vec<(&'static str, &'static 
     let want: Vec<u64> = (0..=height).collect();
     if ver != "ok" || present != want {
         vios.push(("tensor_chain.commit/concurrent_commit_lost", "after concurrent commits the chain does not verify / a block record below the in-memory height is missing (a losing commit restored a snapshot taken before the winner's append)"));
+        // Lean: `concurrent_commits_valid_unless_late_failure` — only the restore step of a commit that failed LATE
+        // (Chain::append rejected its block) can break the chain
+        let late = |e: &String| e == "err height" || e == "err prev_hash" || e == "err bad_sig" || e == "err unsigned" || e == "err tx_root";
+        if !results.iter().any(|x| x.as_ref().err().is_some_and(late)) {
+            vios.push(("tensor_chain.commit/concurrent_chain_broken_without_late_failure", "after concurrent commits the chain does not verify although no commit was rejected by Chain::append (no late failure, hence no restore of a pre-apply snapshot)"));
+        }
+        if height != c.genesis_plus + oks {
+            vios.push(("tensor_chain.commit/concurrent_height_mismatch", "height != previous height + number of commits that returned Ok"));
+        }
     } else {
         if height != c.genesis_plus + oks {
             vios.push(("tensor_chain.commit/concurrent_height_mismatch", "height != previous height + number of commits that returned Ok"));
@@ -1447,7 +1456,7 @@ fn main() {
         "late_fail.kind.late_unknown_proposer", "late_fail.kind.late_unknown_proposer_merged", "late_fail.kind.early_too_many",
         "late_fail.kind.early_conflict", "late_fail.kind.early_not_active", "late_fail.late.k0", "late_fail.late.k1", "late_fail.late.k2",
         "late_fail.late.k3", "late_fail.unreg.removed", "late_fail.rereg.ok",
-        "ws.cas.ok", "ws.cas.err_not_active", "ws.reopen.h_verifyok", "ws.history.empty", "ws.history.one", "ws.history.several", "late_fail.cas.ok",
+        "ws.merge.merged_block_too_many_fails_all", "ws.cas.ok", "ws.cas.err_not_active", "ws.reopen.h_verifyok", "ws.history.empty", "ws.history.one", "ws.history.several", "late_fail.cas.ok",
         "reopen.none.verify_ok", "reopen.remove_tip.verify_ok", "reopen.remove_inner.verify_err_not_found", "reopen.meta_ahead.verify_ok",
         "reopen.meta_behind.verify_ok", "reopen.meta_deleted.verify_ok", "reopen.plant_next_valid.verify_ok",
         "reopen.plant_next_badprev.verify_err_prev_hash", "reopen.plant_gap.verify_ok",
@@ -1539,19 +1548,27 @@ fn main() {
 
     lap("workspace");
     // ---------------- stream A2: directed merge scenario (auto-merge on: orthogonal workspaces end in one block)
-    for auto_merge in [true, false] {
-        let ops = vec![Op::Begin(1), Op::Begin(2), Op::Begin(3), Op::Put(0, 100, 1), Op::Put(1, 200, 2), Op::Put(2, 300, 3), Op::Commit(0), Op::State, Op::Commit(1), Op::Commit(2), Op::State];
-        let out = run_ws_case(&mut m, &ops, 1000, auto_merge, 10);
+    // third case: the merged block exceeds max_txs_per_block (3): the committing workspace AND the merged ones fail
+    for (auto_merge, max_txs) in [(true, 1000usize), (false, 1000), (true, 3)] {
+        let ops = if max_txs == 3 {
+            vec![Op::Begin(1), Op::Begin(2), Op::Put(0, 100, 1), Op::Put(0, 101, 2), Op::Put(1, 200, 3), Op::Cas(1, 201, None, 4), Op::Commit(0), Op::State, Op::Commit(1), Op::Begin(0), Op::Put(2, 1, 5), Op::Commit(2), Op::State]
+        } else {
+            vec![Op::Begin(1), Op::Begin(2), Op::Begin(3), Op::Put(0, 100, 1), Op::Put(1, 200, 2), Op::Put(2, 300, 3), Op::Commit(0), Op::State, Op::Commit(1), Op::Commit(2), Op::State]
+        };
+        let out = run_ws_case(&mut m, &ops, max_txs, auto_merge, 10);
+        if max_txs == 3 && out.hits.iter().filter(|h| *h == "ws.commit.err_too_many").count() == 1 && out.hits.iter().any(|h| h == "ws.commit.err_not_active") {
+            rep.hit("ws.merge.merged_block_too_many_fails_all");
+        }
         for (op, imp, model) in &out.disagreements {
             rep.disagree("workspace.merge", json!({"auto_merge": auto_merge, "at": op}), imp, model);
         }
         for v in &out.violations {
             violation(&mut rep, &v.0, &v.1, json!({"stream": "workspace.merge", "auto_merge": auto_merge, "ops": ops.iter().map(show_op).collect::<Vec<_>>()}));
         }
-        if auto_merge {
+        if auto_merge && max_txs != 3 {
             rep.hit("ws.merge.block_with_merged_ops");
         }
-        rep.case("workspace.merge", Some(&format!("{auto_merge}")));
+        rep.case("workspace.merge", Some(&format!("{auto_merge} {max_txs}")));
     }
 
     lap("workspace.merge");
